@@ -9,7 +9,13 @@ The model (`c06.cdstep`) is fed (parameters before, positive batch, NEGATIVE bat
 end states, the probabilities presented, the gradients and the parameters after the step; `c06.run` recomputes the whole fit
 call from the parameters the call started with (history clause) with the scheduler's learning rate per epoch.
 Independent oracles on the implementation: numpy replay of the chain from the negative batch, finite differences of an
-independently written CD objective, bit-exact continuity of the parameters across batches / epochs / fit calls, StepLR law."""
+independently written CD objective, bit-exact continuity of the parameters across batches / epochs / fit calls, StepLR law.
+Hardening round 4: feature interactions - stop request x scheduler (event grammar per entered epoch, scheduler step count and learning rate LEFT in
+the optimizer, model lrEnd/schedSteps), caller-owned option objects re-used across calls and models, positional call forms in the documented
+parameter order (model QV.CallForm.fitBind through c06.bind), user-registered basis letters."""
+import contextlib
+import io
+
 import numpy as np
 
 from . import qc
@@ -20,30 +26,75 @@ from .qc import torch
 
 FILES = ["qucumber/nn_states/neural_state.py", "qucumber/utils/gradients_utils.py", "qucumber/nn_states/positive_wavefunction.py",
          "qucumber/nn_states/complex_wavefunction.py", "qucumber/nn_states/density_matrix.py"]
-REQUIRED_THEOREMS = ['C06_batch_grad', 'C06_batch_grad_prbm', 'C06_phase_gets_positive_phase_only', 'C06_slices', 'C06_lands_on_parameter',
+REQUIRED_THEOREMS = ['C06_final_lr', 'C06_positional_call', 'C06_batch_grad', 'C06_batch_grad_prbm', 'C06_phase_gets_positive_phase_only', 'C06_slices', 'C06_lands_on_parameter',
                      'C06_lands_on_parameter_prbm', 'C06_sgd_step', 'C06_run_unfold',
                      'C06_chain', 'C06_chain_prbm', 'C06_chain_zero', 'C06_chain_run', 'C06_chain_step', 'C06_chain_law', 'C06_sgd_step_dm',
                      'C06_chain_stationary', 'C06_history', 'C06_run_unfold_cplx', 'C06_run_unfold_dm', 'C06_scheduler_lr', 'C06_steplr', 'C06_fit_trace_length']
-RULE = ("case = a real fit() run (state kind, n, h[, a], data with repeats and per-row bases, pos/neg batch sizes equal or different, dividing N or not, "
-        "k in 0..3, learning rate, 1-3 epochs, optionally a second fit on the same object with other lr/data; optimizer given as a recording SGD "
-        "subclass / omitted (library default, torch.optim.SGD.step patched to record) / with optimizer_args; scheduler = counting stub or a real "
-        "torch StepLR(step_size 1..2, gamma) via scheduler_args; bernoulli draws scripted (faithful u<p or fair coins) and recorded) observed through "
-        "compute_batch_gradients and rbm_am.gibbs_steps wrapped on the instance; every batch of every epoch is one observation: negative batch, "
-        "chain start, probabilities presented, chain end states, .grad per parameter, lr, parameters before/after; non-trivial iff the run has >= 2 "
-        "batches and k >= 1; distinct by hash of the configuration")
+RULE = ("case = a real fit() run (state kind, n, h[, a], data with repeats and per-row bases [optionally over X/Y/Z + user-registered letters], pos/neg batch "
+        "sizes equal or different, dividing N or not, k in 0..3, learning rate, 1-4 epochs, 1-3 consecutive fits on the same object with other lr/data, the "
+        "caller's callbacks list / optimizer_args dict / scheduler_args dict being the SAME objects in every call and optionally in a prior fit of another "
+        "model; optimizer given as a recording SGD subclass / omitted (library default, torch.optim.SGD.step patched to record) / with optimizer_args; "
+        "scheduler = counting stub or a real torch StepLR(step_size 1..2, gamma) via scheduler_args; optionally a stop request raised at epoch start / batch "
+        "start / while the batch is processed / batch end / epoch end of a chosen epoch; the first j = 1..15 documented parameters given positionally; "
+        "bernoulli draws scripted (faithful u<p or fair coins) and recorded) observed through compute_batch_gradients and rbm_am.gibbs_steps wrapped on the "
+        "instance; every batch of every epoch is one observation: negative batch, chain start, probabilities presented, chain end states, .grad per "
+        "parameter, lr, parameters before/after; per call: events, scheduler step count and learning rate left in the optimizer; non-trivial iff the run "
+        "has >= 2 batches and k >= 1; distinct by hash of the configuration")
 TH = {"grad": "C06_batch_grad, C06_phase_gets_positive_phase_only, C06_lands_on_parameter", "after": "C06_sgd_step, C06_sgd_step_dm, C06_run_unfold",
       "sched": "C12_scheduler_once_per_epoch (event-protocol model)",
       "chain": "C06_chain, C06_chain_prbm, C06_chain_run, C06_chain_law (with C05_batch_law, C05_k_step_law)", "chain0": "C06_chain_zero",
       "hist": "C06_history, C06_run_unfold, C06_run_unfold_cplx, C06_run_unfold_dm, C06_fit_trace_length", "lr": "C06_scheduler_lr, C06_steplr"}
 
 
+def user_unitary(theta, phi):
+    """a 2x2 unitary in the library's [real, imag] layout: [[cos t, e^{i phi} sin t], [e^{-i phi} sin t, -cos t]]"""
+    import math
+
+    c, s_ = math.cos(theta), math.sin(theta)
+    return torch.tensor([[[c, math.cos(phi) * s_], [math.cos(phi) * s_, -c]], [[0.0, math.sin(phi) * s_], [-math.sin(phi) * s_, 0.0]]], dtype=torch.double)
+
+
 def make_state(case):
     kind, n, h, a = case["kind"], case["n"], case["h"], case.get("a", 0)
     if kind == "pos":
         return qc.make_positive(n, h, case["am"])
+    ud = None
+    if case.get("letters"):  # basis letters the user registers next to X / Y / Z through the public `unitary_dict=` argument
+        from qucumber.utils import unitaries
+
+        ud = unitaries.create_dict(**{L["name"]: user_unitary(L["theta"], L["phi"]) for L in case["letters"]})
     if kind == "cplx":
-        return qc.make_complex(n, h, case["am"], case["ph"])
-    return qc.make_density(n, h, a, case["am"], case["ph"])
+        return qc.make_complex(n, h, case["am"], case["ph"], unitary_dict=ud)
+    return qc.make_density(n, h, a, case["am"], case["ph"], unitary_dict=ud)
+
+
+class CallRefused(Exception):
+    """the call could not be bound to the signature (TypeError raised at the call boundary, before any code of fit ran)"""
+
+
+# the documented parameter order of `fit` (NOT read from the implementation under test)
+DOC_ORDER = {
+    False: ["data", "epochs", "pos_batch_size", "neg_batch_size", "k", "lr", "progbar", "starting_epoch", "time", "callbacks", "optimizer",
+            "optimizer_args", "scheduler", "scheduler_args"],
+    True: ["data", "epochs", "pos_batch_size", "neg_batch_size", "k", "lr", "input_bases", "progbar", "starting_epoch", "time", "callbacks",
+           "optimizer", "optimizer_args", "scheduler", "scheduler_args"],
+}
+DOC_DEFAULT = {"progbar": False, "time": False, "optimizer_args": None, "scheduler_args": None, "scheduler": None, "callbacks": None, "starting_epoch": 1}
+REFS = {"data": 10, "lr": 11, "input_bases": 12, "callbacks": 13, "optimizer": 14, "optimizer_args": 15, "scheduler": 16, "scheduler_args": 17}
+
+
+def split_call(has_bases, named, explicit, npos):
+    """the call `fit(*pos, **kw)`: the first `npos` documented parameters positionally (those the case does not set explicitly get their
+    documented default), the remaining explicitly set ones by keyword; plus the same call on the wire for the model's binder (`c06.bind`)"""
+    order = DOC_ORDER[has_bases]
+    npos = max(1, min(npos, len(order)))
+    val = lambda nm: named[nm] if nm in explicit else DOC_DEFAULT[nm]
+    pos_names = order[:npos]
+    pos = [val(nm) for nm in pos_names]
+    kw = {nm: named[nm] for nm in order[npos:] if nm in explicit}
+    enc = lambda nm, v: None if v is None else ({"ref": REFS[nm]} if nm in REFS else v)
+    wire = {"has_bases": has_bases, "pos": [enc(nm, val(nm)) for nm in pos_names], "kw": [[nm, enc(nm, v)] for nm, v in kw.items()]}
+    return pos, kw, wire
 
 
 def net_params(net, kind):
@@ -134,7 +185,32 @@ def expected_lr(lr0, sched, e):
 
 
 # ------------------------------------------------------------------ one case
+def parse_events(ev, start):
+    """events of ONE fit call -> (well_formed, [number of batches of every entered epoch]).
+    Well formed: consecutive epochs start, start+1, ...; every epoch is  es (bs opt be)* sched ee ; nothing outside an epoch:
+    the optimizer is stepped exactly once per batch (between on_batch_start and on_batch_end), the scheduler exactly once per ENTERED
+    epoch, after the epoch's last batch and before on_epoch_end - also in an epoch that a stop request cut short."""
+    pos, e, counts = 0, start, []
+    while pos < len(ev):
+        if ev[pos] != f"es{e}":
+            return False, counts
+        pos += 1
+        m = 0
+        while ev[pos:pos + 3] == ["bs", "opt", "be"]:
+            pos += 3
+            m += 1
+        if ev[pos:pos + 2] != ["sched", f"ee{e}"]:
+            counts.append(m)
+            return False, counts
+        pos += 2
+        counts.append(m)
+        e += 1
+    return True, counts
+
+
 def one_case(ctx, case):
+    import copy
+
     ctx.current_case = case
     kind, n, h, a = case["kind"], case["n"], case["h"], case.get("a", 0)
     torch.manual_seed(case["seed"])
@@ -147,13 +223,20 @@ def one_case(ctx, case):
     opt_form = case.get("opt_form", "class")
     dmode = case.get("dmode", "faithful")
     dseed = case.get("dseed", case["seed"] % (1 << 30))
-    log = {"batches": [], "sched": [], "events": [], "unobserved": 0}
-    state = {"epoch": None, "run": 0}
+    stop = case.get("stop")  # {"run", "at": epoch_start | batch_start | mid | batch_end | epoch_end, "epoch" (0-based within the call), "batch"}
+    log = {"batches": [], "sched": [], "events": [], "unobserved": 0, "scheds_made": [], "last_opt": None}
+    state = {"epoch": None, "batch": None, "run": 0}
+    obs = {"on": True}  # False while the caller uses the same option objects for ANOTHER model (prior fit): nothing is recorded
 
     # --- instance-level wrappers (public methods)
     orig_cbg = st.compute_batch_gradients
     orig_gibbs = st.rbm_am.gibbs_steps
     cur = {}
+    start = case.get("start", 1)
+
+    def maybe_stop(where, e, b=None):
+        if stop and obs["on"] and stop["run"] == state["run"] and stop["at"] == where and e == start + stop["epoch"] and (b is None or b == stop["batch"]):
+            st.stop_training = True
 
     def cbg(k, samples_batch, neg_batch, bases_batch=None, *args, **kw):
         cur.clear()
@@ -174,6 +257,7 @@ def one_case(ctx, case):
         elif gc and len(gc) == cur["neg"].shape[0] and len({g_[0] for g_ in gc}) == 1 and all(g_[1].shape == cur["neg"].shape[1:] == g_[2].shape for g_ in gc):
             # one gibbs_steps call per chain (row): still observable, by stacking the per-row calls
             cur["gibbs_k"], cur["gibbs_init"], cur["vk"] = gc[0][0], np.stack([g_[1] for g_ in gc]), np.stack([g_[2] for g_ in gc])
+        maybe_stop("mid", state["epoch"], state["batch"])  # a stop requested while the batch is being processed
         return out
 
     def gibbs(k, initial_state, overwrite=False):
@@ -189,8 +273,11 @@ def one_case(ctx, case):
     st.rbm_am.gibbs_steps = gibbs
 
     def record_step(opt, do_step):
+        if not obs["on"]:
+            return do_step()
         grads = [[None if p.grad is None else p.grad.numpy().copy() for p in g["params"]] for g in opt.param_groups]
         r = do_step()
+        log["last_opt"] = opt
         if "k" not in cur:  # optimizer stepped without a compute_batch_gradients call since the last step: nothing to tie the model to
             log["unobserved"] += 1
             return r
@@ -212,10 +299,15 @@ def one_case(ctx, case):
     class CountSched:
         def __init__(self, optimizer, **kw):
             self.optimizer = optimizer
+            self.last_epoch = 0  # counts its own steps, like a torch scheduler
+            if obs["on"]:
+                log["scheds_made"].append(self)
 
         def step(self):
-            log["sched"].append(len(log["batches"]))
-            log["events"].append("sched")
+            self.last_epoch += 1
+            if obs["on"]:
+                log["sched"].append(len(log["batches"]))
+                log["events"].append("sched")
 
     class RecStepLR(torch.optim.lr_scheduler.StepLR):
         """a REAL torch scheduler; only logs when it is stepped (the constructor's own initial step is not an epoch step)"""
@@ -224,9 +316,11 @@ def one_case(ctx, case):
             self._g3_ready = False
             super().__init__(optimizer, **kw)
             self._g3_ready = True
+            if obs["on"]:
+                log["scheds_made"].append(self)
 
         def step(self, *a_, **k_):
-            if self._g3_ready:
+            if self._g3_ready and obs["on"]:
                 log["sched"].append(len(log["batches"]))
                 log["events"].append("sched")
             return super().step(*a_, **k_)
@@ -234,45 +328,109 @@ def one_case(ctx, case):
     from qucumber.callbacks import LambdaCallback
 
     def on_es(s, e):
-        state["epoch"] = e
-        log["events"].append(f"es{e}")
+        if obs["on"]:
+            state["epoch"] = e
+            log["events"].append(f"es{e}")
+            maybe_stop("epoch_start", e)
 
-    cb = LambdaCallback(on_epoch_start=on_es, on_epoch_end=lambda s, e: log["events"].append(f"ee{e}"))
-    start = case.get("start", 1)
+    def on_bs(s, e, b):
+        if obs["on"]:
+            state["batch"] = b
+            log["events"].append("bs")
+            maybe_stop("batch_start", e, b)
+
+    def on_be(s, e, b):
+        if obs["on"]:
+            log["events"].append("be")
+            maybe_stop("batch_end", e, b)
+
+    def on_ee(s, e):
+        if obs["on"]:
+            log["events"].append(f"ee{e}")
+            maybe_stop("epoch_end", e)
+
+    cb = LambdaCallback(on_epoch_start=on_es, on_batch_start=on_bs, on_batch_end=on_be, on_epoch_end=on_ee)
     last = start + case["epochs"] - 1
-    kw = dict(epochs=last, starting_epoch=start, pos_batch_size=case["pos_bs"], neg_batch_size=case["neg_bs"], k=case["k"], lr=case["lr"],
-              callbacks=[cb])
+    # the caller's option objects: ONE callbacks list, ONE optimizer_args dict, ONE scheduler_args dict for every fit call of the case
+    # (and for the prior fit on another model)
+    cb_list = [cb]
+    named = dict(epochs=last, starting_epoch=start, pos_batch_size=case["pos_bs"], neg_batch_size=case["neg_bs"], k=case["k"], lr=case["lr"],
+                 callbacks=cb_list)
     if sched:
-        kw.update(scheduler=RecStepLR, scheduler_args={"step_size": sched["step_size"], "gamma": sched["gamma"]})
+        named.update(scheduler=RecStepLR, scheduler_args={"step_size": sched["step_size"], "gamma": sched["gamma"]})
     else:
-        kw.update(scheduler=CountSched)
+        named.update(scheduler=CountSched)
     if opt_form == "class":
-        kw.update(optimizer=RecSGD)
+        named.update(optimizer=RecSGD)
     elif opt_form == "args":
-        kw.update(optimizer=RecSGD, optimizer_args={"momentum": 0.0, "dampening": 0.0, "nesterov": False})  # still plain SGD
+        named.update(optimizer=RecSGD, optimizer_args={"momentum": 0.0, "dampening": 0.0, "nesterov": False})  # still plain SGD
+    elif opt_form == "default-args":  # optimizer omitted (library default), options for it given
+        named.update(optimizer_args={"momentum": 0.0, "nesterov": False})
+    option_objs = {k_: named[k_] for k_ in ("callbacks", "optimizer_args", "scheduler_args") if k_ in named}
+    option_snap = {k_: (list(v) if isinstance(v, list) else copy.deepcopy(v)) for k_, v in option_objs.items()}
     runs = [(case["lr"], data)]
     if case.get("second_lr") is not None:  # a second fit on the SAME object: other learning rate, other (same-shaped) data
         runs.append((case["second_lr"], np.asarray(case["second_data"], dtype=float)))
-    run_bounds = []
+    for xr in case.get("extra_runs") or []:
+        runs.append((xr["lr"], np.asarray(xr["data"], dtype=float)))
+    has_bases = kind != "pos"
+    npos = case.get("npos", 1)
+    if opt_form in ("default", "default-args"):
+        npos = min(npos, DOC_ORDER[has_bases].index("optimizer"))  # `optimizer=` stays omitted
+    run_bounds, run_info = [], []
     initial = [net_params(x, kind) for x in nets]
     sgd_step_orig = torch.optim.SGD.step
+    wire = None
     try:
-        if opt_form == "default":  # `optimizer=` omitted: the library's default optimizer; its step is patched (class level) to record
+        if opt_form in ("default", "default-args"):  # `optimizer=` omitted: the library's default optimizer; its step is patched (class level) to record
             def patched(self, closure=None):
                 return record_step(self, lambda: sgd_step_orig(self, closure))
             torch.optim.SGD.step = patched
+
+        def call_fit(obj, lr_run, data_run):
+            nonlocal wire
+            nm = dict(named, lr=lr_run, data=torch.tensor(data_run, dtype=torch.double))
+            if has_bases:
+                nm["input_bases"] = bases
+            pos_args, kw_args, wire = split_call(has_bases, nm, set(nm), npos)
+            try:
+                with contextlib.redirect_stderr(io.StringIO()):  # a progress bar (should one appear) must not garble the verdict lines
+                    obj.fit(*pos_args, **kw_args)
+            except TypeError as e:
+                if e.__traceback__.tb_next is None:  # refused at the call boundary: Python could not bind the documented call form to the signature
+                    raise CallRefused(str(e)[:300])
+                raise
+
+        if case.get("prior"):
+            # the caller has used the very same option objects before, to train ANOTHER model with another learning rate
+            obs["on"] = False
+            try:
+                call_fit(make_state(case), case["prior"]["lr"], data)
+            finally:
+                obs["on"] = True
         for r_i, (lr_run, data_run) in enumerate(runs):
-            kw["lr"] = lr_run
             state["run"] = r_i
             n_before = len(log["batches"])
+            ev_before, sc_before = len(log["events"]), len(log["scheds_made"])
+            log["last_opt"] = None
             p_start = [net_params(x, kind) for x in nets]
-            if kind == "pos":
-                st.fit(torch.tensor(data_run, dtype=torch.double), **kw)
-            else:
-                st.fit(torch.tensor(data_run, dtype=torch.double), input_bases=bases, **kw)
+            call_fit(st, lr_run, data_run)
             run_bounds.append((n_before, len(log["batches"]), lr_run, data_run, p_start, [net_params(x, kind) for x in nets]))
+            opt_o, scheds = log["last_opt"], log["scheds_made"][sc_before:]
+            run_info.append({"events": log["events"][ev_before:], "stopped": bool(st.stop_training),
+                             "final_lr": None if opt_o is None else opt_o.param_groups[0]["lr"], "n_scheds": len(scheds),
+                             "last_epoch": scheds[0].last_epoch if len(scheds) == 1 else None})
+            if st.stop_training:
+                st.stop_training = False  # the caller clears the flag before training on
+    except CallRefused as e:
+        ctx.case({"call_refused": True, "seed": case["seed"], "npos": npos, "kind": kind}, nontrivial=False)
+        ctx.oracle("fit accepts a call written in its documented form (first j documented parameters positionally, the rest by keyword)", False, case,
+                   detail={"TypeError": str(e), "positional": DOC_ORDER[has_bases][:npos]}, sig=f"{kind}/call-form", theorem="C06_positional_call")
+        return
     finally:
         torch.optim.SGD.step = sgd_step_orig
+        st.compute_batch_gradients = orig_cbg
+        st.rbm_am.gibbs_steps = orig_gibbs
 
     if log["unobserved"]:
         # fit no longer goes through the public compute_batch_gradients once per optimizer step: the per-batch model cannot be tied to the code
@@ -284,37 +442,66 @@ def one_case(ctx, case):
     nb = -(-N // case["pos_bs"])
     neg_bs = case["neg_bs"] if case["neg_bs"] else case["pos_bs"]
     nontriv = nb >= 2 and case["k"] >= 1
-    ctx.count("regime=" + case.get("regime", "ordinary")); ctx.count(f"starting_epoch={start}"); ctx.count("second_fit" if len(run_bounds) > 1 else "single_fit")
+    ctx.count("regime=" + case.get("regime", "ordinary")); ctx.count(f"starting_epoch={start}"); ctx.count(f"fit calls on the object={len(run_bounds)}")
     ctx.case({k: case.get(k) for k in ("kind", "n", "h", "k", "lr", "epochs", "pos_bs", "neg_bs", "seed", "data", "bases", "start", "second_lr", "sched",
-                                       "opt_form", "dmode")}, nontrivial=nontriv,
+                                       "opt_form", "dmode", "stop", "prior", "npos", "letters", "extra_runs")}, nontrivial=nontriv,
              sample={"kind": kind, "n": n, "h": h, "N": N, "pos_bs": case["pos_bs"], "neg_bs": case["neg_bs"], "k": case["k"], "lr": case["lr"],
-                     "epochs": case["epochs"], "batches_seen": len(log["batches"]), "sched": sched, "opt_form": opt_form})
+                     "epochs": case["epochs"], "batches_seen": len(log["batches"]), "sched": sched, "opt_form": opt_form, "stop": stop, "npos": npos})
     ctx.count(f"kind={kind}"); ctx.count(f"k={case['k']}"); ctx.count("neg==pos" if neg_bs == case["pos_bs"] else "neg!=pos")
     ctx.count("N%pos==0" if N % case["pos_bs"] == 0 else "N%pos!=0")
     ctx.count("scheduler=" + (f"StepLR(step_size={sched['step_size']})" if sched else "counting stub")); ctx.count(f"optimizer form={opt_form}")
     ctx.count(f"draws={dmode}")
+    ctx.count("stop request=" + (f"{stop['at']} (with {'StepLR' if sched else 'counting stub'})" if stop else "none"))
+    ctx.count("positional arguments (documented order): " + ("data only" if npos == 1 else "through " + DOC_ORDER[has_bases][npos - 1]))
+    ctx.count("prior fit of ANOTHER model with the same option objects" if case.get("prior") else "no prior use of the option objects")
+    if has_bases and case.get("letters"):
+        ctx.count("bases use a user-registered letter (unitary_dict=)")
+    for k_, v in option_objs.items():  # informational: the property constrains the EFFECT (the learning rate / scheduler of THIS call), not the dict
+        same = (list(v) == option_snap[k_]) if isinstance(v, list) else (v == option_snap[k_])
+        ctx.count(f"caller's {k_} object after the calls: " + ("unchanged" if same else "CHANGED by fit"))
 
     # --- schedule-level oracles (per fit call)
     nruns = len(run_bounds)
-    ctx.oracle("one optimizer step per batch", len(log["batches"]) == nb * case["epochs"] * nruns, case,
-               detail={"steps": len(log["batches"]), "expected": nb * case["epochs"] * nruns}, sig=f"{kind}/steps-per-epoch", theorem=TH["after"])
+    ok_sched, ok_steps, sched_detail = True, True, None
+    entered = []  # per fit call: number of batches of every entered epoch
+    for r_i, info in enumerate(run_info):
+        wf, counts = parse_events(info["events"], start)
+        entered.append(counts)
+        cut = bool(stop) and stop["run"] == r_i
+        if not wf:
+            ok_sched = False
+        if not cut and counts != [nb] * case["epochs"]:
+            ok_steps = False
+        if cut:  # how much of the run a stop request lets through belongs to the event protocol (C12): informational here
+            want_e = stop["epoch"] + 1
+            want_m = nb if stop["at"] == "epoch_end" else min(nb, stop["batch"] + 1 if stop["at"] != "epoch_start" else 1)
+            ctx.count("stopped run: entered epochs / batches of the last epoch " + ("as the event protocol says" if len(counts) == want_e and counts[-1:] == [want_m]
+                      and counts[:-1] == [nb] * (want_e - 1) else "differ from the event protocol (C12's concern)"))
+        n_e = len(counts)
+        # how many scheduler objects a call builds is not constrained by the property: the step count is read when there is exactly one
+        steps_ok = info["n_scheds"] != 1 or info["last_epoch"] == n_e
+        if info["n_scheds"] != 1:
+            ctx.count(f"fit call built {info['n_scheds']} scheduler objects (step count read from the events only)")
+        if sched_detail is None and (not wf or not steps_ok):
+            sched_detail = {"fit_call": r_i, "events": info["events"][:60], "entered_epochs": n_e, "schedulers_built": info["n_scheds"],
+                            "scheduler_steps(last_epoch)": info["last_epoch"]}
+        ok_sched = ok_sched and steps_ok
+    ctx.oracle("one optimizer step per batch (every epoch of an unstopped call has ceil(N/pos_batch_size) of them)",
+               ok_steps and len(log["batches"]) == sum(sum(c) for c in entered), case,
+               detail={"steps": len(log["batches"]), "batches_per_entered_epoch": entered, "expected_per_epoch": nb}, sig=f"{kind}/steps-per-epoch", theorem=TH["after"])
+    ctx.oracle("scheduler stepped exactly once per ENTERED epoch (also one cut short by a stop request), after the epoch's last batch, before epoch end, "
+               "never outside an epoch; optimizer stepped once per batch", bool(ok_sched), case, detail=sched_detail, sig=f"{kind}/scheduler",
+               theorem=TH["sched"] + "; C06_final_lr")
+    for r_i, info in enumerate(run_info):  # what the run leaves behind: the rate after exactly one scheduler step per entered epoch
+        if info["final_lr"] is None:
+            continue
+        want = expected_lr(run_bounds[r_i][2], sched, len(entered[r_i]))
+        ctx.oracle("learning rate left in the optimizer after the call == lr*gamma^floor(E/step_size), E = number of epochs the call entered "
+                   "(lr itself without a real scheduler)", abs(info["final_lr"] - want) <= 1e-15 + 1e-12 * abs(want), {**case, "fit_call": r_i},
+                   detail={"lr_in_optimizer": info["final_lr"], "expected": want, "entered_epochs": len(entered[r_i]), "stop": stop},
+                   sig=f"{kind}/final-lr", theorem="C06_final_lr, C06_steplr")
     ev = log["events"]
-    per_run = nb * case["epochs"]
-    ok_sched = len(log["sched"]) == case["epochs"] * nruns and \
-        log["sched"] == [r * per_run + nb * (e + 1) for r in range(nruns) for e in range(case["epochs"])]
-    pos = 0
-    for r in range(nruns):
-        for e in range(start, last + 1):
-            try:
-                i_s = ev.index(f"es{e}", pos); i_e = ev.index(f"ee{e}", i_s)
-            except ValueError:
-                ok_sched = False
-                break
-            ok_sched = ok_sched and ev[i_s + 1:i_e] == ["opt"] * nb + ["sched"] and ev[pos:i_s] == []
-            pos = i_e + 1
-    ctx.oracle("scheduler stepped once per epoch, after the last batch, before epoch end, never outside an epoch", bool(ok_sched), case,
-               detail={"sched": log["sched"], "events": ev[:40]}, sig=f"{kind}/scheduler", theorem=TH["sched"])
-    if opt_form == "default":  # informational: which optimizer the library built (the verdict is the effect: after == before - lr*grad)
+    if opt_form in ("default", "default-args"):  # informational: which optimizer the library built (the verdict is the effect: after == before - lr*grad)
         for cls_ in sorted({f"{rec['opt_class']}(momentum={rec['momentum']})" for rec in log["batches"]}):
             ctx.count(f"default optimizer built by fit: {cls_}")
     for (a0, a1, lr_run, data_run, p_start, p_end) in run_bounds:
@@ -324,7 +511,7 @@ def one_case(ctx, case):
         want_lrs = [expected_lr(lr_run, sched, (rec["epoch"] - start) if rec["epoch"] is not None else 0) for rec in recs]
         lr_ok = all(abs(rec["lr"] - w) <= 1e-15 + 1e-12 * abs(w) for rec, w in zip(recs, want_lrs))
         ctx.oracle("every batch of a fit call uses the data of THAT call and the learning rate lr*gamma^floor(e/step_size) of its epoch e "
-                   "(lr itself without a real scheduler)", rows_ok and neg_ok and lr_ok, case,
+                   "(lr itself without a real scheduler), lr/scheduler_args being those given to THAT call", rows_ok and neg_ok and lr_ok, case,
                    detail={"lrs": [rec["lr"] for rec in recs][:12], "expected_lrs": want_lrs[:12], "rows_ok": rows_ok, "neg_ok": neg_ok},
                    sig=f"{kind}/per-call-config", theorem=TH["after"] + "; " + TH["lr"])
         # history clause, bit-exact: the parameters a batch is evaluated at are EXACTLY those the previous optimizer step left
@@ -341,12 +528,30 @@ def one_case(ctx, case):
                    "with, nothing changes them after the last step", cont is None, case, detail=cont, sig=f"{kind}/continuity", theorem=TH["hist"])
     ctx.oracle("first fit call starts from the parameters the case set", bool(run_bounds) and same_params(run_bounds[0][4], initial), case,
                sig=f"{kind}/continuity-initial", theorem=TH["hist"])
-    if len(run_bounds) > 1:
-        ctx.oracle("second fit call starts from the parameters the first one ended with (bit-exact)", same_params(run_bounds[1][4], run_bounds[0][5]), case,
-                   sig=f"{kind}/continuity-across-fits", theorem=TH["hist"])
+    for r_i in range(1, len(run_bounds)):
+        ctx.oracle("a later fit call starts from the parameters the previous one ended with (bit-exact)", same_params(run_bounds[r_i][4], run_bounds[r_i - 1][5]),
+                   case, sig=f"{kind}/continuity-across-fits", theorem=TH["hist"])
 
     D = dict_np()
-    dict_enc = {L: [[[f2b(D[L][r][c].real), f2b(D[L][r][c].imag)] for c in range(2)] for r in range(2)] for L in "XYZ"}
+    for L in case.get("letters") or []:  # user-registered letters: the same matrices for the numpy oracle and for the model's dictionary
+        u = user_unitary(L["theta"], L["phi"])
+        D[L["name"]] = u[0].numpy() + 1j * u[1].numpy()
+    dict_enc = {L: [[[f2b(D[L][r][c].real), f2b(D[L][r][c].imag)] for c in range(2)] for r in range(2)] for L in D}
+    # the call as the MODEL's binder reads it (positional prefix in the documented order, keywords, documented defaults): C06_positional_call
+    k_model = case["k"]
+    if ctx.driver is not None and wire is not None:
+        mb = ctx.driver.call("c06.bind", **wire)
+        got = None if "error" in mb else {"k": mb["bound"]["k"], "lr": mb["bound"]["lr"], "neg_batch_size": mb["bound"]["neg_batch_size"],
+                                          "pos_batch_size": mb["bound"]["pos_batch_size"], "epochs": mb["bound"]["epochs"],
+                                          "starting_epoch": mb["bound"]["starting_epoch"], "scheduler": mb["bound"]["scheduler"],
+                                          "scheduler_args": mb["bound"]["scheduler_args"], "optimizer_args": mb["bound"]["optimizer_args"]}
+        want = {"k": case["k"], "lr": {"ref": REFS["lr"]}, "neg_batch_size": case["neg_bs"], "pos_batch_size": case["pos_bs"], "epochs": last,
+                "starting_epoch": start, "scheduler": {"ref": REFS["scheduler"]}, "scheduler_args": {"ref": REFS["scheduler_args"]} if sched else None,
+                "optimizer_args": {"ref": REFS["optimizer_args"]} if "optimizer_args" in named else None}
+        ctx.point("model binding of the call (QV.CallForm.fitBind) gives k / lr / scheduler / ... the values the case wrote at the documented positions",
+                  "aux", want, got, case, exact=True, sig=f"{kind}/call-binding-model", theorem="C06_positional_call")
+        if got is not None:
+            k_model = got["k"]
     space = np.asarray(qc.all_states(n), dtype=float)
     nbatches = len(log["batches"])
     unmodelled = []
@@ -438,7 +643,7 @@ def one_case(ctx, case):
         if pat_ok:
             draws = [int(x) for cl in rec["calls"] for x in cl["draw"]]
             probs = np.concatenate([cl["p"] for cl in rec["calls"]]) if rec["calls"] else np.zeros(0)
-            m = ctx.driver.call("c06.cdstep", **req, neg=[[int(x) for x in r] for r in rec["neg"]], k=k, draws=draws)
+            m = ctx.driver.call("c06.cdstep", **req, neg=[[int(x) for x in r] for r in rec["neg"]], k=k_model, draws=draws)
             if m.get("short"):
                 ctx.point("model chain consumes the recording", "property", len(draws), "model needs more draws", bcase, exact=True, sig=f"{kind}/chain-draw-count",
                           theorem=TH["chain"])
@@ -478,11 +683,12 @@ def one_case(ctx, case):
         return
     for r_i, (a0, a1, lr_run, data_run, p_start, p_end) in enumerate(run_bounds):
         recs = log["batches"][a0:a1]
-        if len(recs) < 2 or any(rec.get("vk") is None for rec in recs) or len(recs) > 40:
+        special = bool(stop) or bool(sched)  # runs whose final scheduler state is of interest are recomputed even when they have one batch
+        if len(recs) < (1 if special else 2) or any(rec.get("vk") is None for rec in recs) or len(recs) > 40:
             ctx.count("fit calls not recomputed as a whole (fewer than 2 batches / chain unobservable)")
             continue
         epochs = []
-        for e in range(start, last + 1):
+        for e in range(start, start + len(entered[r_i])):  # the epochs the call ENTERED (a stop request may have cut the last one short)
             ebs = []
             for rec in recs:
                 if rec["epoch"] != e:
@@ -506,6 +712,13 @@ def one_case(ctx, case):
         ctx.point("number of recorded updates of the fit call", "property", len(recs), len(m["trace"]), rcase, exact=True, sig=f"{kind}/run-length", theorem=TH["hist"])
         ctx.point("learning rate in force at every batch (model: lrAfter / tagEpochs)", "property", [rec["lr"] for rec in recs], unbits(m["lrs"]), rcase,
                   rtol=1e-12, atol=1e-18, sig=f"{kind}/run-lr", theorem=TH["lr"])
+        info = run_info[r_i]
+        if info["final_lr"] is not None:
+            ctx.point("learning rate left in the optimizer when fit returns (model: lrEnd = one scheduler step per entered epoch)", "property",
+                      info["final_lr"], unbits([m["final_lr"]])[0], rcase, rtol=1e-12, atol=1e-18, sig=f"{kind}/run-final-lr", theorem="C06_final_lr")
+        if info["n_scheds"] == 1:
+            ctx.point("number of scheduler steps of the fit call (scheduler.last_epoch; model: schedSteps)", "property", info["last_epoch"], m["sched_steps"],
+                      rcase, exact=True, sig=f"{kind}/run-sched-steps", theorem="C06_final_lr; " + TH["sched"])
         for t, (rec, tr) in enumerate(zip(recs, m["trace"])):
             for ni in range(len(nets)):
                 ctx.point(f"fit call from its initial parameters: params after batch {t} [net{ni}]", "property", flat(rec["after"][ni], order), unbits(tr[ni]),
@@ -536,14 +749,45 @@ def gen_cases(ctx, thorough):
         else:
             am = qc.rand_rbm_params(rng, n, h, scale); ph = qc.rand_rbm_params(rng, n, h, scale) if kind == "cplx" else None
         second = rng.random() < 0.5
-        rows2 = [[rng.randint(0, 1) for _ in range(n)] for _ in range(N)]
-        if kind != "pos":  # keep the reference-basis row pattern meaningful for the second data set too
-            rows2[0] = data[0]
-        return {"kind": kind, "n": n, "h": h, "a": a, "am": am, "ph": ph, "data": data, "bases": bases, "pos_bs": pos_bs, "neg_bs": neg_bs,
-                "k": rng.choice([0, 1, 2, 3]), "lr": rng.choice([0.5, 0.05, 1e-3]), "epochs": rng.choice([1, 2, 3]), "seed": rng.randrange(1 << 30),
-                "start": rng.choice([1, 1, 2, 4]), "second_lr": (rng.choice([0.25, 0.01]) if second else None),
-                "second_data": (rows2 if second else None), "sched": sched, "opt_form": opt_form,
-                "dmode": rng.choice(["faithful", "faithful", "coin"]), "dseed": rng.randrange(1 << 30)}
+        rows2 = new_rows(n, N, data)
+        letters = None
+        if kind != "pos" and rng.random() < 0.25:
+            letters = with_letters(n, N, bases)
+        c = {"kind": kind, "n": n, "h": h, "a": a, "am": am, "ph": ph, "data": data, "bases": bases, "pos_bs": pos_bs, "neg_bs": neg_bs,
+             "k": rng.choice([0, 1, 2, 3]), "lr": rng.choice([0.5, 0.05, 1e-3]), "epochs": rng.choice([1, 2, 3]), "seed": rng.randrange(1 << 30),
+             "start": rng.choice([1, 1, 2, 4]), "second_lr": (rng.choice([0.25, 0.01]) if second else None),
+             "second_data": (rows2 if second else None), "sched": sched, "opt_form": opt_form,
+             "dmode": rng.choice(["faithful", "faithful", "coin"]), "dseed": rng.randrange(1 << 30), "letters": letters}
+        if rng.random() < 0.4:
+            positional(c, rng.randint(2, len(DOC_ORDER[kind != "pos"])))
+        if rng.random() < 0.25:
+            c["prior"] = {"lr": rng.choice([0.7, 0.02])}
+        return c
+
+    def new_rows(n, N, data):
+        rows = [[rng.randint(0, 1) for _ in range(n)] for _ in range(N)]
+        rows[0] = data[0]  # keep the reference-basis row pattern meaningful for the later data sets too
+        return rows
+
+    def with_letters(n, N, bases):
+        """register 1-2 user letters and use them in the bases; one row is all Z BUT ONE site, that one in a user-registered basis"""
+        names = rng.sample(["H", "K", "z", "x", "S"], rng.choice([1, 2]))
+        for i in range(1, N):
+            if rng.random() < 0.5:
+                bases[i] = "".join(rng.choice(list("XYZZ") + names * 2) for _ in range(n))
+        if N >= 2:
+            j = rng.randrange(n)
+            bases[rng.randrange(1, N)] = "".join(rng.choice(names) if t == j else "Z" for t in range(n))
+        return [{"name": nm, "theta": round(rng.uniform(0.2, 1.3), 3), "phi": round(rng.uniform(0.0, 3.0), 3)} for nm in names]
+
+    def positional(c, npos):
+        """give the first `npos` documented parameters positionally; make the integer arguments pairwise different where possible so that no two
+        documented positions can be exchanged unnoticed"""
+        c["npos"] = npos
+        last = c.get("start", 1) + c["epochs"] - 1
+        taken = {last, c["pos_bs"], c["neg_bs"] if c["neg_bs"] else -1}
+        if c["k"] in taken:
+            c["k"] = next((k_ for k_ in (1, 2, 3, 0) if k_ not in taken), c["k"])
 
     for kind in kinds:
         for _ in range(reps):
@@ -552,7 +796,7 @@ def gen_cases(ctx, thorough):
             if thorough:
                 if rng.random() < 0.3:
                     sched = {"step_size": rng.choice([1, 1, 2]), "gamma": rng.choice([0.5, 0.1, 0.9])}
-                opt_form = rng.choice(["class", "class", "default", "args"])
+                opt_form = rng.choice(["class", "class", "default", "args", "default-args"])
             out.append(base_case(kind, sched, opt_form))
     # a real torch scheduler (StepLR through scheduler_args) over >= 3 epochs, the library's default optimizer, optimizer_args
     forms = [("pos", "default"), ("cplx", "args"), ("dm", "default")]
@@ -570,6 +814,53 @@ def gen_cases(ctx, thorough):
             n = c["n"]
             # distinct rows so that a chain started from the positive batch presents other conditionals than one started from the negative batch
             c["data"] = [[(i >> j) & 1 for j in range(n)] for i in range(N)]
+            out.append(c)
+    # ---- hardening round 4 --------------------------------------------------------------------------------------------------------------
+    # (1) scheduler x stop request: a stop raised at every kind of event, in an epoch that is not the last, with a real StepLR (or the counting
+    #     stub); sometimes training is continued afterwards (the caller clears the flag) with a fresh learning rate
+    ats = ["epoch_start", "batch_start", "mid", "batch_end", "epoch_end"]
+    for rep_i in range(4 if thorough else 1):
+        for i, at in enumerate(ats):
+            kind = kinds[(i + rep_i) % 3]
+            real = not (i == 4 and rep_i % 2 == 0)
+            c = base_case(kind, {"step_size": rng.choice([1, 1, 2]), "gamma": rng.choice([0.5, 0.25])} if real else None, rng.choice(["class", "default", "args"]))
+            N = len(c["data"])
+            c.update(epochs=rng.choice([3, 4]), k=rng.choice([1, 2]), lr=rng.choice([0.5, 0.05]), regime="stop-with-scheduler", prior=None)
+            c["pos_bs"] = min(c["pos_bs"], max(2, N // 2))  # at least two batches per epoch
+            nb = -(-N // c["pos_bs"])
+            c["stop"] = {"run": 0, "at": at, "epoch": rng.randrange(0, c["epochs"] - 1), "batch": rng.randrange(nb)}
+            if c["second_lr"] is None and rng.random() < 0.5:
+                c.update(second_lr=0.125, second_data=new_rows(c["n"], N, c["data"]))
+            if c.get("npos"):
+                positional(c, c["npos"])
+            out.append(c)
+    # (2) caller-owned option objects re-used: ONE optimizer_args dict, ONE scheduler_args dict, ONE callbacks list for three fit calls with
+    #     three learning rates on the object, after the same objects served a fit of ANOTHER model with yet another learning rate
+    for rep_i in range(3 if thorough else 1):
+        for i, kind in enumerate(kinds):
+            c = base_case(kind, {"step_size": 1, "gamma": rng.choice([0.5, 0.25])}, ["args", "default-args", "args"][(i + rep_i) % 3])
+            N = len(c["data"])
+            c.update(epochs=2, k=1, lr=0.4, second_lr=0.05, second_data=new_rows(c["n"], N, c["data"]), regime="shared-option-objects",
+                     extra_runs=[{"lr": 0.2, "data": new_rows(c["n"], N, c["data"])}], prior={"lr": 0.9}, start=1)
+            c["pos_bs"] = min(c["pos_bs"], max(2, N // 2))
+            if c.get("npos"):
+                positional(c, c["npos"])
+            out.append(c)
+    # (3) positional call forms in the documented order: quick = two random prefixes per state type, thorough = every prefix length
+    for kind in kinds:
+        nparams = len(DOC_ORDER[kind != "pos"])
+        for j in (range(2, nparams + 1) if thorough else [rng.randint(4, 6), rng.randint(7, nparams)]):
+            c = base_case(kind, {"step_size": 1, "gamma": 0.5} if rng.random() < 0.5 else None, rng.choice(["class", "args", "default"]))
+            c.update(epochs=rng.choice([1, 2]), regime="positional-call", second_lr=None, second_data=None)
+            positional(c, j)
+            out.append(c)
+    # (4) user-registered basis letters in the training bases (a row that is all Z but one site is NOT a reference-basis row)
+    for kind in ("cplx", "dm"):
+        for _ in range(4 if thorough else 1):
+            c = base_case(kind)
+            c.update(regime="user-letters", k=rng.choice([1, 2]), second_lr=None, second_data=None, epochs=rng.choice([1, 2]))
+            if not c.get("letters"):
+                c["letters"] = with_letters(c["n"], len(c["data"]), c["bases"])
             out.append(c)
     # small-amplitude regime: strongly negative visible biases, all-ones outcomes measured with exactly one rotated site
     for kind in ("cplx", "dm"):
